@@ -25,6 +25,7 @@ import (
 	"os"
 	"path/filepath"
 	"reflect"
+	"runtime"
 	"sort"
 	"strings"
 	"testing"
@@ -50,17 +51,84 @@ func TestVerifSim(t *testing.T) {
 	os.Stdout = os.Stdout
 	log.SetOutput(io.Discard)
 	slog.SetDefault(slog.New(slog.NewTextHandler(io.Discard, nil)))
+	// One processor: the request that is served while another one is stopped runs
+	// on the same P, so that per-P caches (sync.Pool) behave the same in every
+	// execution of a tape. Parallelism comes from the driver's worker processes.
+	runtime.GOMAXPROCS(1)
 	hlib.Main("h3", map[string]hlib.Scenario{"C12": scenarioC12, "C11": scenarioC11})
 }
 
 const maxRequestBytes = 100 * 1024
 
+// parkBucket is the upload bucket with one seam: the request that stores the
+// object `name` stops just before the storage call `at` (open, write or close)
+// until it is released. The harness serves another request meanwhile: two
+// uploads whose handling overlaps, in an order the tape decides.
+type parkBucket struct {
+	storage.BucketHandle
+	at, name string
+	used     bool
+	parked   chan struct{}
+	release  chan struct{}
+}
+
+func (b *parkBucket) arm(at, name string) {
+	b.at, b.name, b.used = at, name, false
+	b.parked, b.release = make(chan struct{}), make(chan struct{})
+}
+
+func (b *parkBucket) stop(at, name string) {
+	if b.at == at && b.name == name && !b.used {
+		b.used = true
+		close(b.parked)
+		<-b.release
+	}
+}
+
+func (b *parkBucket) Object(name string) storage.ObjectHandle {
+	return &parkObject{b.BucketHandle.Object(name), b, name}
+}
+
+type parkObject struct {
+	storage.ObjectHandle
+	b    *parkBucket
+	name string
+}
+
+func (o *parkObject) NewWriter(ctx context.Context) (io.WriteCloser, error) {
+	o.b.stop("open", o.name)
+	w, err := o.ObjectHandle.NewWriter(ctx)
+	if err != nil {
+		return nil, err
+	}
+	return &parkWriter{w, o}, nil
+}
+
+type parkWriter struct {
+	io.WriteCloser
+	o *parkObject
+}
+
+func (w *parkWriter) Write(p []byte) (int, error) {
+	w.o.b.stop("write", w.o.name)
+	return w.WriteCloser.Write(p)
+}
+
+func (w *parkWriter) Close() error {
+	w.o.b.stop("close", w.o.name)
+	return w.WriteCloser.Close()
+}
+
+var theBucket *parkBucket
+
 func newServer(dir string, cfg *mgen.CfgVersion) (http.Handler, string) {
 	ctx := context.Background()
-	bucket, err := storage.NewFSBucket(ctx, dir, "uploaded")
+	fsb, err := storage.NewFSBucket(ctx, dir, "uploaded")
 	if err != nil {
 		panic(err)
 	}
+	bucket := &parkBucket{BucketHandle: fsb}
+	theBucket = bucket
 	ucfg := tconfig.NewConfig(cfg.Real)
 	mux := http.NewServeMux()
 	mux.Handle("/upload/", handleUpload(ucfg, bucket))
@@ -600,6 +668,76 @@ func scenarioC12(c *hlib.RunCtx) *hlib.Violation {
 		}
 		if b, _ := os.ReadFile(filepath.Join(c.Dir, "outside.txt")); string(b) != "outside" {
 			fail("write-outside-bucket", "a file outside the bucket was changed")
+		}
+	}
+	// Two valid uploads whose handling overlaps: the first stops before one of its
+	// storage calls while the second is served in full; each object must decode
+	// to the report sent under its name.
+	if viol == nil && t.Bool(1, 3) {
+		ra, rb := genReport(t, cfg.Ref, false), genReport(t, cfg.Ref, t.Bool(1, 4))
+		// The request that is stopped carries the larger report (a later, smaller
+		// one fits into whatever the first left behind).
+		if ja, _ := json.Marshal(ra); true {
+			if jb, _ := json.Marshal(rb); len(jb) > len(ja) && t.Bool(3, 4) {
+				ra, rb = rb, ra
+			}
+		}
+		okA, _ := approved(ra, cfg.Ref)
+		okB, _ := approved(rb, cfg.Ref)
+		na, nb := fmt.Sprintf("%s/%s.json", ra.Week, fmtG(ra.X)), fmt.Sprintf("%s/%s.json", rb.Week, fmtG(rb.X))
+		if okA && okB && na != nb && validDate(ra.Week) && validDate(rb.Week) && ra.X != 0 && rb.X != 0 {
+			at := []string{"open", "write", "close"}[t.Draw(3)]
+			theBucket.arm(at, na)
+			post := func(r *report) *httptest.ResponseRecorder {
+				body, _ := json.Marshal(r)
+				req := httptest.NewRequest("POST", "/upload/"+r.Week, bytes.NewReader(body))
+				rec := httptest.NewRecorder()
+				h.ServeHTTP(rec, req)
+				return rec
+			}
+			var recA *httptest.ResponseRecorder
+			doneA := make(chan struct{})
+			go func() { recA = post(ra); close(doneA) }()
+			overlapped := false
+			select {
+			case <-theBucket.parked:
+				overlapped = true
+			case <-doneA:
+			}
+			recB := post(rb)
+			if overlapped {
+				close(theBucket.release)
+				<-doneA
+				s.Probe("overlapping-uploads")
+				s.Probe("overlap-at-" + at)
+			}
+			s.Logf("req", "overlapping pair %s (stopped before %s: %v) and %s -> %d, %d", na, at, overlapped, nb, recA.Code, recB.Code)
+			if recA.Code != 200 || recB.Code != 200 {
+				if recA.Code >= 500 || recB.Code >= 500 {
+					fail("server-error", "overlapping uploads were answered %d and %d", recA.Code, recB.Code)
+				}
+				// (a report this generator calls valid and the server refuses is judged by the sequential clauses)
+			} else {
+				for _, x := range []struct {
+					n string
+					r *report
+				}{{na, ra}, {nb, rb}} {
+					data, err := os.ReadFile(filepath.Join(bucketDir, filepath.FromSlash(x.n)))
+					var got report
+					dec := json.NewDecoder(bytes.NewReader(data))
+					dec.DisallowUnknownFields()
+					if err == nil {
+						err = dec.Decode(&got)
+					}
+					if err != nil {
+						fail("object-undecodable", "after two overlapping uploads object %s does not decode as a report: %v", x.n, err)
+					} else if dec.More() {
+						fail("object-undecodable", "after two overlapping uploads object %s holds more than one JSON value", x.n)
+					} else if !sameReport(&got, x.r) {
+						fail("object-differs", "after two overlapping uploads (the first stopped before its %s) object %s decodes to a different report than was sent under that name", at, x.n)
+					}
+				}
+			}
 		}
 	}
 	c.Sample = map[string]any{"requests": cases}
